@@ -438,8 +438,12 @@ class IMMachine(FormatMachine):
         self.count(prop, ["add-ok", why, model["version"], len(self._present(model)) > 1])
         if vtuple(model["version"] or "0.0") is not None:
             d = first_diff(want["cells"], after["cells"])
-            if d:
+            if d and self.watching("C09"):
                 raise Violation("C09", "C09.add_changes_only_addressed_cell", "add-effect-differs/%s" % diff_key(d), {"diff": d})
+            if d:
+                # another property's run: the model keeps what the CALLS specified; the run's own oracle (read back / equal
+                # bytes for equal histories) judges the consequence
+                CTX.probe("foreign.im_add_effect_differs")
         self.check_unique(s, "after-add")
         return "ok"
 
